@@ -268,16 +268,138 @@ def generate(rng, tier, opts=None):
 # execution
 # --------------------------------------------------------------------------
 
+OLD_MTIME = 1_000_000_000
+
+
 def worker_init(prop, tier, opts):
+    """The hook is loaded from a *private copy* of <repo>/qrcode/release.py placed
+    in a scratch package directory, so that the path it computes
+    (<package parent>/doc/qr.1) lies in that scratch directory: code that
+    by-passes the simulated open() can never touch the repository's real manual
+    page.  The copy is taken from the current working tree."""
+    import importlib.util
+    import shutil
+    import tempfile
     core.import_target()
-    import qrcode.release as rel
-    path = os.path.join(os.path.dirname(os.path.dirname(os.path.abspath(rel.__file__))),
-                        "doc", "qr.1")
-    return {"rel": rel, "path": path}
+    src = os.path.join(core.REPO_DIR, "qrcode", "release.py")
+    base = "/dev/shm" if os.path.isdir("/dev/shm") and os.access("/dev/shm", os.W_OK) else None
+    td = tempfile.mkdtemp(prefix="verif_rel_", dir=base)
+    os.makedirs(os.path.join(td, "qrcode"))
+    os.makedirs(os.path.join(td, "doc"))
+    shutil.copy(src, os.path.join(td, "qrcode", "release.py"))
+    spec = importlib.util.spec_from_file_location(
+        "verif_release_copy_%d" % os.getpid(), os.path.join(td, "qrcode", "release.py"))
+    rel = importlib.util.module_from_spec(spec)
+    spec.loader.exec_module(rel)
+    real_page = os.path.join(core.REPO_DIR, "doc", "qr.1")
+    guard = None
+    if os.path.exists(real_page):
+        with open(real_page, "rb") as f:
+            guard = f.read()
+    return {"rel": rel, "path": os.path.join(td, "doc", "qr.1"), "tmp": td,
+            "mode": "simfs", "real_page": real_page, "guard": guard}
 
 
 def worker_fini(ctx):
-    pass
+    import shutil
+    shutil.rmtree(ctx["tmp"], ignore_errors=True)
+    # belt and braces: the repository's own page must be exactly as it was
+    if ctx["guard"] is not None:
+        try:
+            with open(ctx["real_page"], "rb") as f:
+                now = f.read()
+        except OSError:
+            now = None
+        if now != ctx["guard"]:
+            with open(ctx["real_page"], "wb") as f:
+                f.write(ctx["guard"])
+            raise core.HarnessError("the code under test modified the repository's real "
+                                    "doc/qr.1 (restored); its path computation by-passes "
+                                    "the scratch copy")
+
+
+class SimBackend:
+    """Primary: the page lives in SimFS (exact open/write/close log).  A mirror
+    of the page is kept in the real scratch directory only to *notice* code
+    that reaches the file system without going through open()."""
+
+    name = "simfs"
+
+    def __init__(self, ctx, page):
+        self.path = ctx["path"]
+        self.doc = os.path.dirname(self.path)
+        self.fs = SimFS(lambda p: os.path.abspath(p).startswith(self.doc + os.sep))
+        if page is not None:
+            self.fs.files[self.path] = page.encode("utf-8")
+        self.bypassed = False
+        _real_reset(self.path, page)
+        self.fs.install()
+
+    def before(self):
+        self.mark = len(self.fs.log)
+        self.listing = sorted(os.listdir(self.doc))
+
+    def after(self):
+        ops = self.fs.log[self.mark:]
+        wrote = [e for e in ops if e[0] == "open" and any(c in e[2] for c in "wax+")]
+        data = self.fs.files.get(self.path)
+        if sorted(os.listdir(self.doc)) != self.listing or \
+                (os.path.exists(self.path) and os.stat(self.path).st_mtime != OLD_MTIME):
+            self.bypassed = True
+        closed = [e for e in ops if e[0] == "close"]
+        return (None if data is None else data.decode("utf-8")), wrote, len(closed) < len(wrote)
+
+    def close(self):
+        SimFS.uninstall()
+
+
+class RealBackend:
+    """Fallback, used once a by-pass of open() has been noticed: everything
+    happens in the real scratch directory; a write is observed as a changed
+    modification time (reset to a fixed old value before every invocation) or a
+    changed directory listing."""
+
+    name = "realdir"
+
+    def __init__(self, ctx, page):
+        self.path = ctx["path"]
+        self.doc = os.path.dirname(self.path)
+        self.bypassed = False
+        _real_reset(self.path, page)
+
+    def before(self):
+        for f in os.listdir(self.doc):
+            fp = os.path.join(self.doc, f)
+            if fp != self.path:
+                os.unlink(fp)
+        if os.path.exists(self.path):
+            os.utime(self.path, (OLD_MTIME, OLD_MTIME))
+        self.listing = sorted(os.listdir(self.doc))
+
+    def after(self):
+        data = None
+        wrote = []
+        if os.path.exists(self.path):
+            with open(self.path, encoding="utf-8", newline="") as f:
+                data = f.read()
+            if os.stat(self.path).st_mtime != OLD_MTIME:
+                wrote.append(("modified", self.path))
+        if sorted(os.listdir(self.doc)) != self.listing:
+            wrote.append(("directory-changed", self.doc))
+        return data, wrote, False
+
+    def close(self):
+        pass
+
+
+def _real_reset(path, page):
+    doc = os.path.dirname(path)
+    for f in os.listdir(doc):
+        os.unlink(os.path.join(doc, f))
+    if page is not None:
+        with open(path, "w", encoding="utf-8", newline="") as f:
+            f.write(page)
+        os.utime(path, (OLD_MTIME, OLD_MTIME))
 
 
 def header_shape(page):
@@ -293,13 +415,31 @@ def header_shape(page):
 
 
 def execute(ctx, case, log: EventLog):
+    if ctx["mode"] == "simfs":
+        out = _execute(ctx, case, log, SimBackend)
+        bypassed = out[3]
+        if out[0] and not bypassed:
+            # a violation seen through the simulated file system is re-judged at once on
+            # the real scratch directory; if it does not show there, the code reaches the
+            # file system in a way SimFS does not carry (e.g. encoding="locale", os-level
+            # calls) and the real directory is the judge from now on
+            real = _execute(ctx, case, EventLog(0), RealBackend)
+            if {v.cls for v in out[0]} & {v.cls for v in real[0]}:
+                return out[:3]
+            bypassed = True
+        if not bypassed:
+            return out[:3]
+        ctx["mode"] = "realdir"
+        del log.lines[1:]
+    v, stats, steps, _ = _execute(ctx, case, log, RealBackend)
+    stats.inc("probe.judged_on_real_scratch_directory")
+    return v, stats, steps
+
+
+def _execute(ctx, case, log, backend_cls):
     rel, path = ctx["rel"], ctx["path"]
-    doc_dir = os.path.dirname(path)
     stats = Stats()
     violations = []
-    fs = SimFS(lambda p: os.path.abspath(p).startswith(doc_dir + os.sep))
-    if case["page"] is not None:
-        fs.files[path] = case["page"].encode("utf-8")
     clock = SimClock(case["start"])
     fake_dt = make_fake_datetime_module(clock)
     fake_time = FakeTime(clock)
@@ -310,7 +450,7 @@ def execute(ctx, case, log: EventLog):
     def viol(cls, msg, fp):
         violations.append(Violation(PROP, cls, msg, fp))
 
-    fs.install()
+    be = backend_cls(ctx, case["page"])
     fake_time.install()
     if saved_dt is not None:
         rel.datetime = fake_dt
@@ -324,17 +464,16 @@ def execute(ctx, case, log: EventLog):
             if st["version"] is not None:
                 data["new_version"] = st["version"]
             expected, writes = model_update(model_page, st["name"], st["version"], clock.now)
-            before_log = len(fs.log)
             shape = header_shape(model_page)
             exc = None
+            be.before()
             try:
                 rel.update_manpage(data)
             except BaseException as e:  # noqa
                 exc = e
-            ops = fs.log[before_log:]
-            wrote = [e for e in ops if e[0] == "open" and any(c in e[2] for c in "wax+")]
-            after = fs.files.get(path)
-            after_s = None if after is None else after.decode("utf-8")
+            after_s, wrote, unclosed = be.after()
+            if be.bypassed:
+                break
             action = ("other-name" if st["name"] != "qrcode" else
                       "missing" if model_page is None else
                       "write" if writes else
@@ -343,7 +482,7 @@ def execute(ctx, case, log: EventLog):
             stats.add("tuples", (shape, action, st.get("jump_kind", "explicit")))
             log.ev("step", k, st["name"], repr(st["version"]), "t=%d" % clock.now,
                    action, "exc=%s" % type(exc).__name__ if exc else "ok",
-                   "wrote=%d" % len(wrote), core.short_hash(after or b""))
+                   "wrote=%s" % bool(wrote), core.short_hash(after_s or ""))
             fp = f"{action}/{shape.split('@')[0]}"
             if model_page is None and st["name"] == "qrcode":
                 # read error must propagate and must not create the page
@@ -351,8 +490,8 @@ def execute(ctx, case, log: EventLog):
                 if not isinstance(exc, FileNotFoundError):
                     viol("C20/missing-page-not-propagated",
                          f"step {k}: page missing, got {exc!r}", fp)
-                if wrote or after is not None:
-                    viol("C20/write-on-read-error", f"step {k}: wrote {ops}", fp)
+                if wrote or after_s is not None:
+                    viol("C20/write-on-read-error", f"step {k}: wrote {wrote}", fp)
                 continue
             if exc is not None:
                 viol("C20/unexpected-exception",
@@ -364,14 +503,14 @@ def execute(ctx, case, log: EventLog):
                 viol(cls, f"step {k} ({action}): page {after_s!r} != model {expected!r}", fp)
             if not writes and wrote:
                 viol("C20/write-in-noop-case",
-                     f"step {k} ({action}): page opened for writing: {wrote}", fp)
+                     f"step {k} ({action}): page written although nothing was due: "
+                     f"{[tuple(w[:3]) for w in wrote][:3]}", fp)
             if writes and not wrote:
                 viol("C20/no-write-when-change-due", f"step {k}", fp)
             if writes:
                 stats.inc("probe.date_" + ("1digit" if model_date(clock.now)[1] == " "
                                            else "2digit"))
-                closed = [e for e in ops if e[0] == "close"]
-                if len(closed) < len(wrote):
+                if unclosed:
                     stats.inc("probe.unclosed_handle")
             if violations:
                 break
@@ -380,12 +519,13 @@ def execute(ctx, case, log: EventLog):
         if saved_dt is not None:
             rel.datetime = saved_dt
         fake_time.uninstall()
-        SimFS.uninstall()
+        be.close()
     stats.inc("clock_reads", clock.reads)
     stats.inc("sim_seconds_span", int(last_ts - first_ts))
     stats.counters["sim_ts_min"] = int(first_ts)
     stats.counters["sim_ts_max"] = int(last_ts)
-    return violations, stats, len(case["steps"])
+    stats.inc("backend." + be.name)
+    return violations, stats, len(case["steps"]), be.bypassed
 
 
 def is_nontrivial(case):
@@ -445,6 +585,19 @@ def minimise(ctx, case, violation):
     return case
 
 
+def confirm(ctx, case, violation):
+    """Re-judge the (minimised) violating history on the *real* scratch directory
+    (real open()/os calls, only the clock simulated).  -> None when the same
+    class shows there too, else a description: the simulated file system is then
+    being by-passed and the finding must not be reported as a violation."""
+    v, _, _, _ = _execute(ctx, case, EventLog(0), RealBackend)
+    classes = {x.cls for x in v}
+    if violation.cls in classes:
+        return None
+    return (f"the simulated file system shows {violation.cls} but the same history on a real "
+            f"directory gives {sorted(classes) or 'no violation'}; a seam is being by-passed")
+
+
 def coverage(merged, tier):
     st = merged["stats"]
     ts = sorted(st.sets.get("ts", {0}))
@@ -460,6 +613,7 @@ def coverage(merged, tier):
         "samples": merged["samples"][:3],
         "invocations": merged["steps"],
         "actions": st.group("action."),
+        "file_backend_runs": st.group("backend."),
         "faults_fired": st.group("fault."),
         "probes": st.group("probe."),
         "distinct_interleavings_or_states": {
@@ -473,8 +627,12 @@ def coverage(merged, tier):
         "components": {
             "real": ["qrcode.release.update_manpage", "re", "str/list ops",
                      "datetime.strftime (real formatting of the simulated instant)"],
-            "stub": ["builtins.open/io.open for paths under <repo>/doc -> SimFS (in-memory)",
-                     "qrcode.release.datetime -> fake module reading SimClock",
+            "stub": ["release.py is loaded from a private copy of the working tree's file so "
+                     "that the page path it computes lies in a scratch directory",
+                     "builtins.open/io.open for that path -> SimFS (in-memory); if the code "
+                     "is seen to reach the file system without open(), the worker falls "
+                     "back to judging on the real scratch directory (mtime / listing)",
+                     "release.datetime -> fake module reading SimClock",
                      "time.time/localtime/gmtime/strftime -> SimClock"]},
     }
 
